@@ -29,6 +29,7 @@ import EPV.Gen.EPPistonRun
 import EPV.Lemmas.EPPiston
 import EPV.Lemmas.EPPistonModels
 import EPV.Lemmas.EPPistonExists
+import EPV.Lemmas.Bridge.EPPiston
 import EPV.Tactics
 
 set_option linter.all false
@@ -44,117 +45,69 @@ noncomputable section
 /-- `p_y = Gruneisen(ρ_y, e_y)` at the returned state behind the elastic precursor -/
 theorem hypo_eos_yield (p : EPPistonHypo.P) (h : EPPistonHypo.outcome p = .ok) (hc : hypoConsistent p) :
     p.p_y = mieGruneisen p.rho0 p.gamma p.c0 p.s0 p.rho_y p.e_y := by
-  obtain ⟨hs, hry, he, hp, hW, hv, hp2, hr2⟩ := hc
-  simp only [epv_tree] at *
-  split_ifs at * <;> first
-    | epv_absurd
-    | (simp only [epv_leaf, Real.rpow_two] at hp
-       rw [hp]; simp only [mieGruneisen]; ring)
+  obtain ⟨d, -⟩ := EPP.hypo_doc p h hc
+  rw [EPP.mieGruneisen_eq]
+  exact d.p_y_eq
 
 /-- `p2 = Gruneisen(ρ2, e2)` at the returned state behind the plastic wave, given the fsolve
 atom `Plastic_Residual(wv_pl) = 0` -/
 theorem hypo_eos_plastic (p : EPPistonHypo.P) (h : EPPistonHypo.outcome p = .ok) (hc : hypoConsistent p)
     (hres : EPPistonHypo.plastic_residual p = 0) :
     p.p2 = mieGruneisen p.rho0 p.gamma p.c0 p.s0 p.rho2 (EPPistonHypo.e2 p) := by
-  obtain ⟨hs, hry, he, hp, hW, hv, hp2, hr2⟩ := hc
-  simp only [epv_tree] at *
-  split_ifs at * <;> first
-    | epv_absurd
-    | (simp only [epv_leaf, Real.rpow_two] at hp2 hr2 hres ⊢
-       rw [hr2, hp2]
-       simp only [mieGruneisen]
-       linear_combination hres)
+  obtain ⟨d, -⟩ := EPP.hypo_doc p h hc
+  linarith [d.residual_eq]
 
 /-- conversely, the residual handed to fsolve vanishes exactly when `(ρ2, e2, p2)` is on the EOS -/
 theorem hypo_residual_iff (p : EPPistonHypo.P) (h : EPPistonHypo.outcome p = .ok) (hc : hypoConsistent p) :
     EPPistonHypo.plastic_residual p = 0 ↔ p.p2 = mieGruneisen p.rho0 p.gamma p.c0 p.s0 p.rho2 (EPPistonHypo.e2 p) := by
-  refine ⟨hypo_eos_plastic p h hc, fun hp' => ?_⟩
-  obtain ⟨hs, hry, he, hp, hW, hv, hp2, hr2⟩ := hc
-  simp only [epv_tree] at *
-  split_ifs at * <;> first
-    | epv_absurd
-    | (simp only [epv_leaf, Real.rpow_two] at hp2 hr2 hp' ⊢
-       rw [hr2, hp2] at hp'
-       simp only [mieGruneisen] at hp'
-       linear_combination hp')
+  obtain ⟨d, -⟩ := EPP.hypo_doc p h hc
+  constructor <;> intro h' <;> linarith [d.residual_eq]
 
 /-! ### model = 'hyperIfin' -/
 
 /-- `p_y = Gruneisen(ρ_y, e_y)` at the returned state behind the elastic precursor -/
 theorem ifin_eos_yield (p : EPPistonIfin.P) (h : EPPistonIfin.outcome p = .ok) (hc : ifinConsistent p) :
     p.p_y = mieGruneisen p.rho0 p.gamma p.c0 p.s0 p.rho_y p.e_y := by
-  obtain ⟨hs, hry, he, hp, hW, hv, hp2, hr2⟩ := hc
-  simp only [epv_tree] at *
-  split_ifs at * <;> first
-    | epv_absurd
-    | (simp only [epv_leaf, Real.rpow_two] at hp
-       rw [hp]; simp only [mieGruneisen]; ring)
+  obtain ⟨d, -⟩ := EPP.ifin_doc p h hc
+  rw [EPP.mieGruneisen_eq]
+  exact d.p_y_eq
 
 /-- `p2 = Gruneisen(ρ2, e2)` at the returned state behind the plastic wave, given the fsolve
 atom `Plastic_Residual(wv_pl) = 0` -/
 theorem ifin_eos_plastic (p : EPPistonIfin.P) (h : EPPistonIfin.outcome p = .ok) (hc : ifinConsistent p)
     (hres : EPPistonIfin.plastic_residual p = 0) :
     p.p2 = mieGruneisen p.rho0 p.gamma p.c0 p.s0 p.rho2 (EPPistonIfin.e2 p) := by
-  obtain ⟨hs, hry, he, hp, hW, hv, hp2, hr2⟩ := hc
-  simp only [epv_tree] at *
-  split_ifs at * <;> first
-    | epv_absurd
-    | (simp only [epv_leaf, Real.rpow_two] at hp2 hr2 hres ⊢
-       rw [hr2, hp2]
-       simp only [mieGruneisen]
-       linear_combination hres)
+  obtain ⟨d, -⟩ := EPP.ifin_doc p h hc
+  linarith [d.residual_eq]
 
 /-- conversely, the residual handed to fsolve vanishes exactly when `(ρ2, e2, p2)` is on the EOS -/
 theorem ifin_residual_iff (p : EPPistonIfin.P) (h : EPPistonIfin.outcome p = .ok) (hc : ifinConsistent p) :
     EPPistonIfin.plastic_residual p = 0 ↔ p.p2 = mieGruneisen p.rho0 p.gamma p.c0 p.s0 p.rho2 (EPPistonIfin.e2 p) := by
-  refine ⟨ifin_eos_plastic p h hc, fun hp' => ?_⟩
-  obtain ⟨hs, hry, he, hp, hW, hv, hp2, hr2⟩ := hc
-  simp only [epv_tree] at *
-  split_ifs at * <;> first
-    | epv_absurd
-    | (simp only [epv_leaf, Real.rpow_two] at hp2 hr2 hp' ⊢
-       rw [hr2, hp2] at hp'
-       simp only [mieGruneisen] at hp'
-       linear_combination hp')
+  obtain ⟨d, -⟩ := EPP.ifin_doc p h hc
+  constructor <;> intro h' <;> linarith [d.residual_eq]
 
 /-! ### model = 'hyperFin' -/
 
 /-- `p_y = Gruneisen(ρ_y, e_y)` at the returned state behind the elastic precursor -/
 theorem fin_eos_yield (p : EPPistonFin.P) (h : EPPistonFin.outcome p = .ok) (hc : finConsistent p) :
     p.p_y = mieGruneisen p.rho0 p.gamma p.c0 p.s0 p.rho_y p.e_y := by
-  obtain ⟨hs, hry, he, hp, hW, hv, hp2, hr2⟩ := hc
-  simp only [epv_tree] at *
-  split_ifs at * <;> first
-    | epv_absurd
-    | (simp only [epv_leaf, Real.rpow_two] at hp
-       rw [hp]; simp only [mieGruneisen]; ring)
+  obtain ⟨d, -⟩ := EPP.fin_doc p h hc
+  rw [EPP.mieGruneisen_eq]
+  exact d.p_y_eq
 
 /-- `p2 = Gruneisen(ρ2, e2)` at the returned state behind the plastic wave, given the fsolve
 atom `Plastic_Residual(wv_pl) = 0` -/
 theorem fin_eos_plastic (p : EPPistonFin.P) (h : EPPistonFin.outcome p = .ok) (hc : finConsistent p)
     (hres : EPPistonFin.plastic_residual p = 0) :
     p.p2 = mieGruneisen p.rho0 p.gamma p.c0 p.s0 p.rho2 (EPPistonFin.e2 p) := by
-  obtain ⟨hs, hry, he, hp, hW, hv, hp2, hr2⟩ := hc
-  simp only [epv_tree] at *
-  split_ifs at * <;> first
-    | epv_absurd
-    | (simp only [epv_leaf, Real.rpow_two] at hp2 hr2 hres ⊢
-       rw [hr2, hp2]
-       simp only [mieGruneisen]
-       linear_combination hres)
+  obtain ⟨d, -⟩ := EPP.fin_doc p h hc
+  linarith [d.residual_eq]
 
 /-- conversely, the residual handed to fsolve vanishes exactly when `(ρ2, e2, p2)` is on the EOS -/
 theorem fin_residual_iff (p : EPPistonFin.P) (h : EPPistonFin.outcome p = .ok) (hc : finConsistent p) :
     EPPistonFin.plastic_residual p = 0 ↔ p.p2 = mieGruneisen p.rho0 p.gamma p.c0 p.s0 p.rho2 (EPPistonFin.e2 p) := by
-  refine ⟨fin_eos_plastic p h hc, fun hp' => ?_⟩
-  obtain ⟨hs, hry, he, hp, hW, hv, hp2, hr2⟩ := hc
-  simp only [epv_tree] at *
-  split_ifs at * <;> first
-    | epv_absurd
-    | (simp only [epv_leaf, Real.rpow_two] at hp2 hr2 hp' ⊢
-       rw [hr2, hp2] at hp'
-       simp only [mieGruneisen] at hp'
-       linear_combination hp')
+  obtain ⟨d, -⟩ := EPP.fin_doc p h hc
+  constructor <;> intro h' <;> linarith [d.residual_eq]
 
 /-- non-vacuity of `outcome = ok ∧ Consistent` (default problem); `plastic_residual = 0` is the fsolve
 atom: the tie checks on every run that the real constructor's `wv_pl` makes it vanish -/
